@@ -156,6 +156,11 @@ class FlowFields(ImageBatch):
             torch.tensor_split,
             Tensor.tensor_split,
         ):
+            if grid and isinstance(grid[0], (tuple, list)):
+                # Split along batch dimension, one sequence of grids for each part
+                return tuple(
+                    cls._torch_function_result(func, res, g, axes) for res, g in zip(data, grid)
+                )
             return tuple(cls._torch_function_result(func, res, grid, axes) for res in data)
         return cls._torch_function_result(func, data, grid, axes)
 
